@@ -160,7 +160,11 @@ def flagOf (lu ru : Bool) : String → Option Bool
   | "right_keys_unique" => some ru
   | _ => none
 
-def stripSub0 (e : String) : String := e.replace "[0]" ""
+/-- `<var>[0]` ↦ `<var>` for the key-field variables of `_ordered_merge` (anything else is left alone and rejected later) -/
+def stripSub0 (e : String) : String :=
+  match ["a_on", "b_on", "left_on_fields", "right_on_fields"].find? (fun v => e == v ++ "[0]") with
+  | some v => v
+  | none => e
 
 /-- apply the `dest.rename` calls to the list (field name ↦ which generator output it holds) -/
 def applyRenames : List (Bool × String × String) → List (String × Bool) → Except Err (List (String × Bool))
@@ -379,7 +383,9 @@ def orderedMerge (i : Input) (leftToMap rightToMap : List String) (leftLen right
 /-- a pandas result row: (left row | NaN, right row | NaN) -/
 abbrev Pairs := List (Option Nat × Option Nat)
 
-def mapOf (xs : List (Option Nat)) : List Int := xs.map (fun o => ((o.getD 0 : Nat) : Int))
+/-- `df['l_i'].to_numpy(dtype=np.int32)`: the row number, or whatever the cast makes of NaN (never read: the filter is
+    false there) — modelled as `-1` -/
+def mapOf (xs : List (Option Nat)) : List Int := xs.map (fun o => match o with | some i => (i : Int) | none => -1)
 def filtOf (xs : List (Option Nat)) : List Bool := xs.map Option.isSome
 
 /-- `safe_map_values` / `safe_map_indexed_values` with the row map and the `notnull` filter -/
